@@ -117,6 +117,70 @@ theorem pybody_stretch_stretch_eq_stretchList {D Sh : Type} (ofInt : Int → K) 
 
 end list
 
+section colors
+variable {K X D : Type} [Add K] [Sub K] [Mul K] [Div K] [Neg K] [LT K] [DecidableLT K] [LE K] [DecidableLE K]
+
+/-- the matrix literal of `rgb2xyz` as written in the source (decimal literals through `flit mantissa decimals`) -/
+def pyRgb2xyzM (flit : Nat → Nat → K) : List (List K) :=
+  [[flit 4124 4, flit 3576 4, flit 1805 4], [flit 2126 4, flit 7152 4, flit 722 4], [flit 193 4, flit 1192 4, flit 9505 4]]
+
+/-- the matrix literal of `xyz2rgb` -/
+def pyXyz2rgbM (flit : Nat → Nat → K) : List (List K) :=
+  [[flit 32406 4, -(flit 15372 4), -(flit 4986 4)], [-(flit 9689 4), flit 18758 4, flit 415 4],
+   [flit 557 4, -(flit 204 3), flit 1057 3]]
+
+/-- `colors.rgb2xyz` (current source) = `_convert` of the channel values decoded by the model's `srgbToLinearG`
+    (`x = c/255`, `((x + 0.055)/(1 + 0.055))^2.4` above the knee `0.04045`, `x/12.92` at or below it — `lowBelow = true`),
+    with the source's matrix: decoding first, matrix second. Every scalar type, power function, `_convert`, image. -/
+theorem pybody_colors_rgb2xyz_eq_model (ofNat : Nat → K) (ofInt : Int → K) (flit : Nat → Nat → K) (P : ColorPrims K X D)
+    (rgb : X → K) (dtype : D) :
+    colors_rgb2xyz ofNat ofInt flit P rgb dtype =
+      P.convert (fun p => srgbToLinearG P.pow (ofNat 1) (ofNat 255) (flit 55 3) (flit 24 1) (flit 1292 2) (flit 4045 5) true (rgb p))
+        (pyRgb2xyzM flit) dtype := by
+  simp only [colors_rgb2xyz, srgbToLinearG, pyRgb2xyzM, decide_eq_true_eq, if_true]
+
+/-- `colors.xyz2rgb` (current source) = the model's `linearToSrgbG` (`(1 + 0.055)·v^(1/2.4) − 0.055` above the knee
+    `0.0031308`, `12.92·v` at or below it, times 255) applied to `_convert` of the input with the source's matrix:
+    matrix first, encoding second. -/
+theorem pybody_colors_xyz2rgb_eq_model (ofNat : Nat → K) (ofInt : Int → K) (flit : Nat → Nat → K) (P : ColorPrims K X D)
+    (xyz : X → K) (dtype : D) :
+    colors_xyz2rgb ofNat ofInt flit P xyz dtype =
+      fun p => linearToSrgbG P.pow (ofNat 1) (flit 24 1) (flit 55 3) (flit 1292 2) (flit 31308 7) (ofNat 255) true
+        (P.convert xyz (pyXyz2rgbM flit) dtype p) := by
+  simp only [colors_xyz2rgb, linearToSrgbG, pyXyz2rgbM, decide_eq_true_eq, if_true]
+
+/-- `_convert` on an image whose positions are (pixel, channel): the 3×3 matrix times the channel vector of the pixel -/
+def pixConvert {Px : Type} [OfNat K 0] (g : Px × Nat → K) (m : List (List K)) (_ : D) : Px × Nat → K :=
+  fun pc => (matVec m [g (pc.1, 0), g (pc.1, 1), g (pc.1, 2)]).getD pc.2 0
+
+/-- … so that, pixel by pixel, the translated `rgb2xyz` IS the model's `rgb2xyzG` (matrix of the source, transfer `srgbToLinearG`) -/
+theorem pybody_colors_rgb2xyz_pixel {Px : Type} [OfNat K 0] (ofNat : Nat → K) (ofInt : Int → K) (flit : Nat → Nat → K)
+    (pow : K → K → K) (rgb : Px × Nat → K) (dtype : D) (px : Px) :
+    [0, 1, 2].map (fun ch => colors_rgb2xyz ofNat ofInt flit ({ pow := pow, convert := pixConvert } : ColorPrims K (Px × Nat) D)
+        rgb dtype (px, ch)) =
+      rgb2xyzG (pyRgb2xyzM flit)
+        (srgbToLinearG pow (ofNat 1) (ofNat 255) (flit 55 3) (flit 24 1) (flit 1292 2) (flit 4045 5) true)
+        [rgb (px, 0), rgb (px, 1), rgb (px, 2)] := by
+  rw [pybody_colors_rgb2xyz_eq_model]
+  simp [pixConvert, rgb2xyzG, matVec, pyRgb2xyzM]
+
+/-- … and the translated `xyz2rgb` IS the model's `xyz2rgbG` (matrix of the source, encoding `linearToSrgbG`) -/
+theorem pybody_colors_xyz2rgb_pixel {Px : Type} [OfNat K 0] (ofNat : Nat → K) (ofInt : Int → K) (flit : Nat → Nat → K)
+    (pow : K → K → K) (xyz : Px × Nat → K) (dtype : D) (px : Px) :
+    [0, 1, 2].map (fun ch => colors_xyz2rgb ofNat ofInt flit ({ pow := pow, convert := pixConvert } : ColorPrims K (Px × Nat) D)
+        xyz dtype (px, ch)) =
+      xyz2rgbG (pyXyz2rgbM flit)
+        (linearToSrgbG pow (ofNat 1) (flit 24 1) (flit 55 3) (flit 1292 2) (flit 31308 7) (ofNat 255) true)
+        [xyz (px, 0), xyz (px, 1), xyz (px, 2)] := by
+  rw [pybody_colors_xyz2rgb_eq_model]
+  simp [pixConvert, xyz2rgbG, matVec, pyXyz2rgbM]
+
+end colors
+
+/-- non-vacuity (integers, a toy power): the decoding takes the linear segment at the knee and the power segment above it -/
+example : srgbToLinearG (α := Int) (fun a _ => a + 100) 1 255 0 2 5 0 true 0 = 0 ∧
+    srgbToLinearG (α := Int) (fun a _ => a + 100) 1 255 0 2 5 0 true 255 = 101 := by decide
+
 /-- non-vacuity: the three argument forms give three different ranges, and the affine map with the cap does something
     (integers, `ptp = 4`: `6 ↦ (6 − 2)·(255/4) = 252`, and a value carried above `hi` is capped) -/
 example : stretchRange (fun n => (n : Int)) none none = (0, 255) ∧ stretchRange (fun n => (n : Int)) (some 3) none = (0, 3) ∧
